@@ -43,9 +43,12 @@ type c08Outcome struct {
 	crashed   bool
 	inTx      bool
 	errors    []string
+	// victim request numbers of the commits that stored a shuttermint block carrying DKG
+	// messages (commitments, evaluations, accusations, apologies)
+	dkgCommits []int
 }
 
-func c08Execute(r *simkit.Run, n, t int, L int64, tape []int, crash c08Crash, sub uint64) *c08Outcome {
+func c08Execute(r *simkit.Run, n, t, nbyz int, L int64, tape []int, crash c08Crash, sub uint64) *c08Outcome {
 	// replay the base choice sequence
 	saved := r.C
 	if tape != nil {
@@ -57,10 +60,19 @@ func c08Execute(r *simkit.Run, n, t int, L int64, tape []int, crash c08Crash, su
 	w := newWorldB(r, n, t, L)
 	defer w.close()
 	var nodes []*bNode
-	for i := 0; i < n; i++ {
+	var honestIdx []int
+	for i := 0; i < n-nbyz; i++ {
 		nodes = append(nodes, w.addNode(i))
+		honestIdx = append(honestIdx, i)
+	}
+	var byz []*byzKeyper
+	for i := n - nbyz; i < n; i++ {
+		b := newByzKeyper(w, i, r.C, honestIdx)
+		byz = append(byz, b)
+		r.Eventf("%s", b.describe())
 	}
 	victim := nodes[0]
+	commitAt := map[int64]int{}
 	where := fmt.Sprintf("crash %s at victim request %d", crash.mode, crash.at)
 	// exactly-once monitor
 	lastSync := int64(0)
@@ -80,6 +92,7 @@ func c08Execute(r *simkit.Run, n, t int, L int64, tape []int, crash c08Crash, su
 					r.FailNoAbort("block-not-applied-exactly-once", "sync-meta", "%s: the victim's committed sync position jumps from %d to %d", where, lastSync, cur)
 				}
 				lastSync = cur
+				commitAt[cur] = out.requests
 			case "tendermint_outgoing_messages":
 				cols, rows := victim.db.Dump("tendermint_outgoing_messages")
 				ci := map[string]int{}
@@ -145,7 +158,20 @@ func c08Execute(r *simkit.Run, n, t int, L int64, tape []int, crash c08Crash, su
 	}
 	restartAt := time.Duration(-1)
 	step := func() {
-		w.produceBlock(nil)
+		// which pending transactions the block takes, and in which order, is a choice: DKG
+		// messages of different keypers land in different blocks
+		pick := []int{}
+		if m := w.tm.MempoolSize(); m > 0 {
+			for _, i := range r.C.Perm(m, "block-order") {
+				if !r.C.Chance(200, "tx-delayed") {
+					pick = append(pick, i)
+				}
+			}
+		}
+		w.produceBlock(pick)
+		for _, b := range byz {
+			b.onBlocks()
+		}
 		w.settle(time.Second)
 		// supervisor: a stopped main loop is restarted (only the victim is ever crashed)
 		if !victim.running && out.crashed {
@@ -208,6 +234,25 @@ func c08Execute(r *simkit.Run, n, t int, L int64, tape []int, crash c08Crash, su
 		}
 	}
 	out.inPhase, _, _ = dkgMessagesInPhase(w, eon, nodes)
+	for _, b := range w.tmc.Blocks {
+		dkgBlock := false
+		for _, tx := range b.Txs {
+			raw, err := base64.RawURLEncoding.DecodeString(string(tx))
+			if err != nil {
+				continue
+			}
+			mw, err := shmsg.GetMessage(raw)
+			if err != nil {
+				continue
+			}
+			if mw.Msg.GetPolyCommitment() != nil || mw.Msg.GetPolyEval() != nil || mw.Msg.GetAccusation() != nil || mw.Msg.GetApology() != nil {
+				dkgBlock = true
+			}
+		}
+		if k, ok := commitAt[b.Height]; ok && dkgBlock {
+			out.dkgCommits = append(out.dkgCommits, k)
+		}
+	}
 	// (consistency) C07's oracle over all keypers
 	checkDKGAgreement(r, w, eon, nodes)
 	// (single commitment) + (outbox order) from what shuttermint received
@@ -280,8 +325,12 @@ func c08Execute(r *simkit.Run, n, t int, L int64, tape []int, crash c08Crash, su
 
 func runC08(r *simkit.Run) {
 	c := r.C
-	n, t := 3, 2
-	if r.Tier == "thorough" && c.Chance(300, "n4") {
+	n, t, nbyz := 3, 2, 0
+	switch {
+	case c.Chance(400, "with-byzantine"):
+		// three honest keypers (one of them the crash victim) and a Byzantine one
+		n, t, nbyz = 4, c.Range(2, 3, "t"), 1
+	case r.Tier == "thorough" && c.Chance(300, "n4"):
 		n, t = 4, c.Range(2, 3, "t")
 	}
 	L := int64(c.Range(8, 10, "phase-length"))
@@ -289,11 +338,14 @@ func runC08(r *simkit.Run) {
 	baseChooser := simkit.NewChooser(r.Seed, 0xC08)
 	saved := r.C
 	r.C = baseChooser
-	base := c08Execute(r, n, t, L, nil, c08Crash{}, 0)
+	base := c08Execute(r, n, t, nbyz, L, nil, c08Crash{}, 0)
 	r.C = saved
 	tape := append([]int(nil), baseChooser.Tape...)
 	r.Eventf("base run: victim made %d seam requests, success=%v inPhase=%t", base.requests, base.success, base.inPhase)
-	r.Sample["base"] = fmt.Sprintf("n=%d t=%d L=%d victim requests=%d success=%v in-phase=%t", n, t, L, base.requests, base.success, base.inPhase)
+	if nbyz > 0 {
+		r.Probe("runs-with-byzantine")
+	}
+	r.Sample["base"] = fmt.Sprintf("n=%d t=%d byzantine=%d L=%d victim requests=%d success=%v in-phase=%t", n, t, nbyz, L, base.requests, base.success, base.inPhase)
 	if base.requests < 50 {
 		r.InfraFail("base run too short: %d victim requests", base.requests)
 	}
@@ -321,8 +373,14 @@ func runC08(r *simkit.Run) {
 				bcasts = append(bcasts, i+1)
 			}
 		}
-		for i := 0; i < 10; i++ {
+		for i := 0; i < 8; i++ {
 			points = append(points, c08Crash{at: 1 + c.Intn(base.requests, "crash-at"), mode: "before"})
+		}
+		// right after a block with DKG messages became durable: what the handlers changed in
+		// memory must be in that commit
+		for i := 0; i < 5 && len(base.dkgCommits) > 0; i++ {
+			points = append(points, c08Crash{at: base.dkgCommits[c.Intn(len(base.dkgCommits), "crash-dkg-commit")], mode: "after-commit"})
+			r.Probe("crash-after-dkg-block")
 		}
 		for i := 0; i < 3 && len(commits) > 0; i++ {
 			points = append(points, c08Crash{at: commits[c.Intn(len(commits), "crash-commit")], mode: "after-commit"})
@@ -333,7 +391,7 @@ func runC08(r *simkit.Run) {
 	}
 	for pi, p := range points {
 		p.delay = time.Duration(c.Intn(3, "restart-delay")) * time.Second
-		sub := c08Execute(r, n, t, L, tape, p, 0)
+		sub := c08Execute(r, n, t, nbyz, L, tape, p, 0)
 		r.Steps++
 		if sub.inTx || p.mode != "before" {
 			r.Nontrivial = true
